@@ -75,7 +75,8 @@ class Net:
     def op(self, op, inputs, outputs, opts=None, custom=None, version=1):
         self.ops.append(dict(op=op, inputs=list(inputs), outputs=list(outputs), opts=opts, custom=custom, version=version))
         for i in inputs:
-            self.consumed.add(i)
+            if i >= 0:
+                self.consumed.add(i)
         for o in outputs:
             if self.tensors[o]["data"] is None:
                 self.open.append(o)
@@ -571,11 +572,22 @@ def _branch_npu(net):
     return True
 
 
+@inst("cpu_custom_opt")
+def _custom_opt(net):
+    """third-party custom op whose middle operand is omitted (-1) and whose last operand is a constant"""
+    x = net.cur
+    t = net.T(x)
+    c = net.const([4], "int8", "data", scale=[0.5], zp=0)
+    y = net.act(t["shape"], t["dtype"], q=(net.scale(x), net.zp(x)) if t["quant"] else None, noquant=t["quant"] is None)
+    net.op(("CUSTOM", "ThirdPartyGate"), [x, -1, c], [y], None, custom=b"gate\x00\x01")
+    return True
+
+
 SIGMA_Q = [
     "conv1x1", "conv3x3", "conv3x3s2", "conv3x3v_relu6", "conv3x3d2", "dw3x3", "dw3x3s2", "fc", "maxpool2x2",
     "avgpool2x2", "avgpool3x3same", "add_res", "add_const", "add_scalar", "add_bcast_h", "sub_const", "mul_const",
     "min_const", "relu", "leaky_relu", "logistic", "tanh", "hard_swish", "reshape", "concat", "split", "strided_slice",
-    "pad_hw", "pad_c", "mean", "resize_nn2", "quantize", "tconv_s2", "softmax", "cpu_d2s", "cpu_custom", "conv_dynw", "cpu_neg", "tap", "branch_cpu", "branch_npu", "conv_dynw_nobias",
+    "pad_hw", "pad_c", "mean", "resize_nn2", "quantize", "tconv_s2", "softmax", "cpu_d2s", "cpu_custom", "conv_dynw", "cpu_neg", "tap", "branch_cpu", "branch_npu", "conv_dynw_nobias", "cpu_custom_opt",
 ]
 SIGMA_T = SIGMA_Q + [n for n, (_, tags) in INSTANCES.items() if "t" in tags]
 SIGMA_C = [n for n, (_, tags) in INSTANCES.items() if "c" in tags]
